@@ -138,7 +138,7 @@ def run(ctx):
                                     "case": {"output": ramses.to_json(wout), "request": loadrun.req_for_driver(wreq)},
                                     "call_site": "hilbert._get_cpu_list", "input_class": "cube_finer_than_oct"})
             break
-    n = 40 if ctx.tier == "quick" else 1500
+    n = 40 if ctx.tier == "quick" else 600
     dist = {}
     # the key function itself: exhaustive for small depths, random up to 19 bits
     from osyris.io import hilbert as oh
